@@ -78,7 +78,7 @@ Theorem C06_unlock_erases : forall s p n,
 Proof. exact unlock_erases. Qed.
 Print Assumptions C06_unlock_erases.
 
-Theorem C06_lock_adds_no_entry : forall s p n', In n' (nodes (fst (lock_ s p))) ->
+Theorem C06_lock_adds_no_entry : forall fx s p n', In n' (nodes (fst (lock_ fx s p))) ->
   exists n, In n (nodes s) /\ n_path n' = n_path n /\ n_cache n' = n_cache n.
 Proof. exact lock_adds_no_entry. Qed.
 Print Assumptions C06_lock_adds_no_entry.
